@@ -27,6 +27,20 @@ inductive Dims (α : Type)
   | table (rows : List (α × α))
 deriving Repr
 
+/-- one row `tomo_id x y z` of a per-tomogram table, kept as `(tomo_id, z)` -/
+def row4? {α : Type} : List α → Option (α × α)
+  | [t, _, _, z] => some (t, z)
+  | _ => none
+
+/-- `ioutils.dimensions_load` on a table of numbers (what a list / tuple / ndarray / DataFrame / text file / .com file
+amounts to after `np.asarray` and "1-D input is one row"): the SHAPE DISPATCH. Shape (1, 3) is one `x y z` triple (only
+z is used by `flip_handedness`); any shape (N, 4) with N ≥ 1 is rows `tomo_id x y z`; every other shape is refused
+(`ValueError`, documented) — `none`. -/
+def loadDims {α : Type} : List (List α) → Option (Dims α)
+  | [] => none
+  | [[_, _, z]] => some (.single z)
+  | rows => (rows.mapM row4?).map .table
+
 inductive Op (α : Type)
   | update
   | scale (f : α)
